@@ -13,7 +13,8 @@ Request (one line):
 
 Answer: one chunk per call, then the final world, joined by ` ; `:
 `R!<states&…>!<probs&…>!<ref:values+…|A>!<events>` · `E<kind>!<events>` · `I` · `S!<events>` · `Q` · `C<circ>:<args>` ·
-`W!heap=…!sim=…!comp=…!proc=…`; `err value` when the circuit cannot be constructed. -/
+`W!heap=…!sim=…!comp=…!proc=…`; every call chunk ends with `!H<caller lists after the call>` (and `!GARBAGE`
+when `_state` has become an array of a wrong shape); `err value` when the circuit cannot be constructed. -/
 open QipVerif QipVerif.Proto QipVerif.Sim QipVerif.Heap
 
 abbrev W := World Exact.QS Exact.Prob
@@ -178,6 +179,7 @@ def hist (fs : List String) : Option String := do
   let isGarbage (w : W) : Bool := match w.sim with | some s => s.form == .garbage | none => false
   let (w, outs) := calls.foldl (fun (acc : W × List String) call =>
       let (w', o) := execCall cfg mode c inits phases acc.1 call
+      let o := o ++ "!H" ++ ";".intercalate ((w'.heap.cells.take lists.length).map showList)
       (w', acc.2 ++ [if isGarbage w' then o ++ "!GARBAGE" else o])) (w0, [])
   pure (" ; ".intercalate (outs ++ [showWorld w]))
 
